@@ -87,10 +87,24 @@ def h_decode_raw(ctx, n):
     data = ctx.octets("data", n)
     b = items_of(data)
     e, u = call(CdsShortTimestamp.unpack, data)
+    # the other two decoding entry points take the same octets and must agree with unpack()
+    e2, u2 = call(CdsShortTimestamp.unpack_from_raw, data)
+    reader = CdsShortTimestamp(0x1234, 0x56789, init_dt_unix_stamp=False)
+    if ctx.symbolic:     # the views are the subject of the 'views' case; see h_add
+        from symx.timestub import OpaqueDT
+        reader._calculate_date_time = lambda: setattr(reader, "_datetime", OpaqueDT(reader._unix_seconds, "branch-free recorder"))
+    e3, _ = call(reader.read_from_raw, data)
     if n < 7:
         ctx.holds("short input refused with BytesTooShortError", isinstance(e, BytesTooShortError), exc_name(e))
+        ctx.holds("unpack_from_raw: short input refused with BytesTooShortError", isinstance(e2, BytesTooShortError), exc_name(e2))
+        ctx.holds("read_from_raw: short input refused with BytesTooShortError", isinstance(e3, BytesTooShortError), exc_name(e3))
         return
     good_p = sym_and(((b[0] >> 4) & 7) == 4, ((b[0] >> 2) & 1) == 0)
+    ctx.holds("unpack_from_raw and read_from_raw accept / refuse exactly like unpack",
+              (type(e) is type(e2)) and (type(e) is type(e3)), "%s / %s / %s" % (exc_name(e), exc_name(e2), exc_name(e3)))
+    if e is None and e2 is None and e3 is None:
+        ctx.holds("unpack_from_raw and read_from_raw return the same fields as unpack", sym_and(
+            u2[0] == from_be(b[1:3]), u2[1] == from_be(b[3:7]), reader.ccsds_days == from_be(b[1:3]), reader.ms_of_day == from_be(b[3:7])))
     if e is not None:
         ctx.reach("refused")
         ctx.holds("refused only for a wrong P-field, with ValueError", sym_and(isinstance(e, ValueError), sym_not(good_p)), exc_name(e))
@@ -126,10 +140,12 @@ def mk_timedelta(ctx, d, s, us):
     return datetime.timedelta(days=d, seconds=s, microseconds=us)
 
 
-def h_add(ctx, dmax, lazy):
-    """lazy: the stamp is created with init_dt_unix_stamp=False (views not computed at construction)"""
-    days, ms = ctx.int("days", 0, 65535), ctx.int("ms", 0, MS_DAY - 1)
-    d, s, us = ctx.int("td_days", 0, dmax), ctx.int("td_seconds", 0, 86399), ctx.int("td_us", 0, 999999)
+def h_add(ctx, dmax, lazy, smax=86399, msmax=MS_DAY - 1, smin=0):
+    """lazy: the stamp is created with init_dt_unix_stamp=False (views not computed at construction).
+    smax/msmax: narrow windows (increments of a few seconds, times early in the day) in which an implementation that goes
+    through floating point is still decided within the budget"""
+    days, ms = ctx.int("days", 0, 65535), ctx.int("ms", 0, msmax)
+    d, s, us = ctx.int("td_days", 0, dmax), ctx.int("td_seconds", smin, smax), ctx.int("td_us", 0, 999999)
     t = CdsShortTimestamp(days, ms, init_dt_unix_stamp=False)
     # The sign branch inside _calculate_date_time is a floating-point comparison whose feasibility queries dominate the run
     # time and are the subject of the 'views' case (any (days, ms)); here it is replaced by a branch-free recorder of the
@@ -195,7 +211,7 @@ def h_from_dt(ctx, lo_day, hi_day, whole_ms):
 def cases(tier):
     cs = [Case("codec", "codec", h_codec, {}, bounds="all day counts 0..65535, all 32-bit millisecond values"),
           Case("codec-twin", "codec", h_codec, dict(twin=True), expect_violation=True, bounds="reachability twin")]
-    for n in tier_pick(tier, (0, 3, 6, 7, 8), tuple(range(0, 12))):
+    for n in tier_pick(tier, (0, 1, 3, 6, 7, 8), tuple(range(0, 12))):
         cs.append(Case("decode-n%d" % n, "decode", h_decode_raw, dict(n=n), bounds="every octet string of length %d" % n,
                        must_reach=["reach:refused", "reach:accepted"] if n >= 7 else []))
     cs.append(Case("views", "views", h_views, {}, bounds="all days 0..65535, all ms 0..86399999"))
@@ -205,6 +221,10 @@ def cases(tier):
                            must_reach=["reach:returned"],
                            bounds="all timestamps (%s), timedelta days 0..%d, seconds 0..86399, microseconds 0..999999" % (
                                "created with init_dt_unix_stamp=False" if lazy else "views initialised", dmax)))
+    for sec in tier_pick(tier, (1, 2), (0, 1, 2, 3, 7, 60, 3600, 86399)):
+        cs.append(Case("add-window-s%d" % sec, "add", h_add, dict(dmax=0, lazy=True, smin=sec, smax=sec, msmax=999), budget=1500,
+                       must_reach=["reach:returned"],
+                       bounds="timestamps with ms of day 0..999, timedelta of exactly %d seconds plus 0..999999 microseconds" % sec))
     regions = [("pre1970-day", 4382, 4382), ("epoch-day", 4383, 4383), ("pre1970", 0, 4382), ("post1970", 4383, 65535), ("all", 0, 65535)]
     for name, lo, hi in regions:
         for whole in (True, False):
